@@ -19,7 +19,10 @@ use crate::store::StoreItem;
 use parking_lot::{RwLockReadGuard, RwLockWriteGuard};
 use std::cell::UnsafeCell;
 use std::collections::hash_map::RandomState;
+#[cfg(not(all(transparencies_stretto_verif, kani)))]
 use std::collections::HashMap;
+#[cfg(all(transparencies_stretto_verif, kani))]
+use crate::verif_kmap::HashMap;
 use std::fmt::{Debug, Display, Formatter};
 use std::hash::BuildHasher;
 use std::time::Duration;
